@@ -39,7 +39,7 @@ W = 15
 # end to end the configuration file is the harness's own: account names chosen so that two different (exchange, holder) pairs spell the
 # same text when joined with "_" (Cold_Wallet + Bob / Cold + Wallet_Bob) — accounts are pairs, not strings. The list object is shared with
 # the pipeline / reports helpers (they index into it), so it is changed in place.
-ACCTS[:] = [("Cold_Wallet", "Bob"), ("Kraken", "Bob"), ("Cold", "Wallet_Bob"), ("Cold_Wallet", "Alice"), ("Kraken", "Alice")]
+ACCTS[:] = [("Cold_Wallet", "Bob"), ("Kraken Pro", "Bob"), ("Cold", "Wallet_Bob"), ("Cold_Wallet", "Alice"), ("Kraken Pro", "Alice")]      # one name with a blank inside
 EXS = sorted({a[0] for a in ACCTS})
 HOS = sorted({a[1] for a in ACCTS}, reverse=True)
 ALL_ASSETS = ["B1", "B.2", "B3"]      # real tickers contain dots and hyphens (USDC.e, BRK-B): one asset name has a dot
@@ -342,7 +342,10 @@ def gen(rng, prop=None):
         # every environment variable the source reads is a switch of the program: the write set must stay confined with each of them set
         sw = [v for v in env_switches() if v not in ("CURRENCY_CODE", "LONG_TERM_CAPITAL_GAINS")]
         if sw:
-            case["env"] = {rng.choice(sw): rng.choice(["1", "DEBUG", "true"])}
+            v_ = rng.choice(sw)
+            # a log level must be one of logging's names (anything else is a misconfiguration that ends the run); other switches are
+            # presence flags
+            case["env"] = {v_: rng.choice(["DEBUG", "WARNING", "ERROR"]) if "LEVEL" in v_ else "1"}
     if prop == "C18" and rng.random() < 0.12:
         case["variant"] = "log-is-a-file"
     elif prop == "C18" and rng.random() < 0.2:
@@ -798,10 +801,15 @@ def open_canon(r):
         return [r[0], 0] + list(r[2:])
     if r[0] == "OT":
         return [r[0], r[1], 0] + list(r[3:])
+    if r[0] in ("TB", "TT"):        # Account Balances rows of the full report: same tie
+        return [r[0], r[1], 0] + list(r[3:])
     return r
 
 
 def diff(case, i, m):
+    if case.get("env"):
+        return []                       # environment switches (profiler, log level) are outside the model — e.g. under RP2_ENABLE_PROFILER
+                                        # cProfile swallows SystemExit and every run exits 0: the audit oracle (C18) is what applies
     if case.get("fault") not in MODELLED_FAULTS:
         return []                       # faults outside the model (input file is not an .ods, configuration file missing, malformed date option): oracle only
     if m["exit"] < 0:
